@@ -18,7 +18,10 @@ PINS = [('plasTeX/__init__.py', 'expandDef'), ('plasTeX/__init__.py', 'Definitio
         ('plasTeX/Context.py', 'Context.addLocal'), ('plasTeX/Context.py', 'Context.addGlobal'), ('plasTeX/__init__.py', 'Macro.invoke'),
         ('plasTeX/Base/TeX/Text.py', 'bgroup.invoke'), ('plasTeX/Base/TeX/Text.py', 'egroup.invoke'),
         ('plasTeX/Base/TeX/Primitives.py', 'ifnum.invoke'), ('plasTeX/Base/TeX/Primitives.py', 'iftrue.invoke'), ('plasTeX/Base/TeX/Primitives.py', 'iffalse.invoke'),
-        ('plasTeX/Base/TeX/Primitives.py', 'ifcase.invoke')]
+        ('plasTeX/Base/TeX/Primitives.py', 'ifcase.invoke'), ('plasTeX/Base/TeX/Primitives.py', 'ifodd.invoke'), ('plasTeX/Base/TeX/Primitives.py', 'let.invoke'),
+        ('plasTeX/Base/TeX/Registers.py', 'newif.invoke'), ('plasTeX/Context.py', 'Context.newif'), ('plasTeX/__init__.py', 'NewIf.invoke'),
+        ('plasTeX/__init__.py', 'IfTrue.invoke'), ('plasTeX/__init__.py', 'IfFalse.invoke'), ('plasTeX/TeX.py', 'TeX.readInternalType'),
+        ('plasTeX/TeX.py', 'TeX.castControlSequence'), ('plasTeX/TeX.py', 'TeX.castNumber'), ('plasTeX/TeX.py', 'TeX.readCharacter')]
 RULE = ('(a) \\def parameter texts in normal form (literal prefix, 0-9 parameters, each undelimited or delimited by 1-2 tokens) with '
         'conforming calls (braced balanced undelimited arguments, delimited arguments free of the delimiter token) and bodies of literals, '
         '#k, ##; \\newcommand with 0-9 arguments, optional argument present/absent; plus a malformed soup of random parameter texts, bodies and '
@@ -465,7 +468,8 @@ def engine_case(prog, style):
     except Exception as e:      # a broken Tokenizer is C01's business: the case is dropped here
         return None
     names = [n for n in EL.names_in(toks) if n not in EL.PRIMS]
-    return dict(kind='engine', toks=toks, names=names, prog=prog, src=src, style=style)
+    cnames = [(EL.fcnt(c) if style == 'f' else ML.cntname(c)) for c in ML.counters_used(prog)]
+    return dict(kind='engine', toks=toks, names=names, cnames=cnames, prog=prog, src=src, style=style)
 
 
 def engine_streams(rng, tier, boost):
@@ -478,10 +482,10 @@ def engine_streams(rng, tier, boost):
             out.append(('engine', c))
     for _ in range((500 if q else 6000) * boost):
         toks = EL.gen_soup(rng)
-        out.append(('engine-soup', dict(kind='engine', toks=toks, names=[n for n in EL.names_in(toks) if n not in EL.PRIMS] + ['zqa'][:0])))
+        out.append(('engine-soup', dict(kind='engine', toks=toks, names=[n for n in EL.names_in(toks) if n not in EL.PRIMS], cnames=['a', 'b', 'c', 'ab'])))
     for _ in range((300 if q else 3000) * boost):
         f1 = rng.random() < 0.5
-        out.append(('print', dict(kind='print', prog=EL.gen_prog(rng, f1_only=f1, max_params=rng.choice([3, 9]), delims=False, allow_nested=False, switches=False))))
+        out.append(('print', dict(kind='print', prog=EL.gen_prog(rng, f1_only=f1, max_params=rng.choice([3, 9]), delims=False, allow_nested=False, counters=False))))
     for toks in EL.all_small(2 if q else 3):
         out.append(('engine-small', dict(kind='engine', toks=toks, names=[n for n in EL.names_in(toks) if n not in EL.PRIMS])))
     return out
@@ -516,6 +520,8 @@ def model_input(case):
         return [3, ML.w_nodes(case['prog'])]
     if case['kind'] == 'engine':
         x = [case['toks'], [[ord(ch) for ch in n] for n in case['names']]]
+        if case.get('cnames') is not None:
+            x.append([[ord(ch) for ch in n] for n in case['cnames']])
         return [2, x, ML.w_nodes(case['prog'])] if case.get('prog') is not None else [2, x]
     if case['kind'] == 'def':
         return [0, [0, case['args'], case['body'], case['stream']]]
@@ -547,7 +553,7 @@ def obs_tokens(toks):
     return [[int(t.catcode), [ord(ch) for ch in str(t)]] for t in toks if t is not None]
 
 
-ELEM_CLASS = {'bgroup': 0, 'egroup': 1, 'def_': 2, 'gdef': 3, 'relax': 4, 'else_': 5, 'fi': 6, 'newcommand': 9, 'renewcommand': 10, 'let': 11, 'newif': 12}
+ELEM_CLASS = {'bgroup': 0, 'egroup': 1, 'def_': 2, 'gdef': 3, 'relax': 4, 'else_': 5, 'fi': 6, 'newcommand': 9, 'renewcommand': 10, 'let': 11, 'newif': 12, 'stepcounter': 13, 'setcounter': 14, 'addtocounter': 15}
 
 
 def run_engine(case):
@@ -605,6 +611,8 @@ def run_engine(case):
             means.append([6, 0])
         else:
             means.append([1])
+    if case.get('cnames') is not None:
+        return [0, out, len(ctx.contexts), means, [int(ctx.counters[c].value) if c in ctx.counters else 0 for c in case['cnames']]]
     return [0, out, len(ctx.contexts), means]
 
 
